@@ -77,7 +77,7 @@ func (c *evalOrderChecker) VisitStmt(stmt ast.Stmt) {
 
 func (c *evalOrderChecker) hasPtrRecv(fn *ast.Ident) bool {
 	sig, ok := c.ctx.TypeOf(fn).(*types.Signature)
-	if !ok {
+	if !ok || sig.Recv() == nil {
 		return false
 	}
 	return typep.IsPointer(sig.Recv().Type())
